@@ -309,6 +309,13 @@ func genLen(t *rapid.T, label string) int {
 		return 2
 	case 3:
 		return rapid.IntRange(0, 40).Draw(t, label+"Long")
+	case 4:
+		// around powers of two up to 1025: crosses any size threshold an implementation may switch at
+		if rapid.IntRange(0, 3).Draw(t, label+"Pow2P") == 0 {
+			b := 1 << rapid.IntRange(3, 10).Draw(t, label+"Pow2")
+			return b + rapid.IntRange(-1, 1).Draw(t, label+"Pow2Off")
+		}
+		return rapid.IntRange(0, 12).Draw(t, label)
 	default:
 		return rapid.IntRange(0, 12).Draw(t, label)
 	}
